@@ -80,7 +80,11 @@ def parse_text(txt, cpp):
     for b in blocks:
         amps.append(c18.parse_goofit(b))
         coefs.append(re.findall(r'(?:mkvar|Variable)\("([^"]*_[ri])"', b))
-    return {"event": event, "massconsts": sorted(massconsts), "resvars": sorted([k, v.get("M"), v.get("W")] for k, v in resvars.items()),
+    arrays = []
+    rx = r"std::vector<Variable>\s+(\w+)\s*\{\{(.*?)\}\};" if cpp else r"^(\w+) =\s+\[\s*\n(.*?)\]"
+    for m in re.finditer(rx, txt, re.S | re.M):
+        arrays.append([m.group(1), [x.strip() for x in m.group(2).split(",") if x.strip()]])
+    return {"arrays": arrays, "event": event, "massconsts": sorted(massconsts), "resvars": sorted([k, v.get("M"), v.get("W")] for k, v in resvars.items()),
             "masses_line": masses_line, "pars": decls, "amps": amps, "coefs": coefs}
 
 
@@ -268,7 +272,14 @@ def main():
         f = d / f"model_{i}.txt"
         f.write_text(t)
         cases.append({"path": str(f), "cli": i in (0, 1), "opt": c20.parse_opt(t)})
-    impl = vlib.run_impl("c19.py", cases, nshards=len(cases))
+    # generated four-body option files (the generator of C18) with all the parameter families their lineshapes need
+    ngen = 16 if args.tier == "quick" else 200
+    for i in range(ngen):
+        opt = ampgen_gen.rand_convertible(rng)
+        f = d / f"gen_{i}.txt"
+        f.write_text(ampgen_gen.render(opt))
+        cases.append({"path": str(f), "cli": False, "opt": opt, "generated": True})
+    impl = vlib.run_impl("c19.py", cases, nshards=min(16, len(cases)))
     pre = """
 Definition pid_of (n : string) : option Z := pd_get n amp_names.
 Definition info (p : Z) : option pinfo := zlookup p amp_particles.
@@ -313,6 +324,10 @@ Definition info (p : Z) : option pinfo := zlookup p amp_particles.
         return None
     diffs, hits = [], []
     for i, (c, iv, mv) in enumerate(zip(cases, impl, model)):
+        if isinstance(iv, dict) and "err" in iv and iv["err"] == "LineFailure" and c.get("generated") and (isinstance(mv, dict) or any(isinstance(a, dict) for a in mv[5])):
+            # an amplitude with an unsupported spin structure: the premise of the property is not met (model and implementation agree)
+            ck.notes.setdefault("premise_not_met", []).append([c["path"], "both", "unsupported spin structure: conversion refused by model and implementation"])
+            continue
         if isinstance(iv, dict) and "err" in iv:
             diffs.append(i)
             hits.append((c["path"], "conversion raises " + iv["err"] + (" (F10: programmatic_name signature)" if iv["err"] == "TypeError" else "")))
@@ -338,6 +353,18 @@ Definition info (p : Z) : option pinfo := zlookup p amp_particles.
                 and [[x[0], x[1], [l[:5] for l in x[2]], x[3], x[4]] for x in a["amps"]] == [[x[0], x[1], [l[:5] for l in x[2]], x[3], x[4]] for x in b["amps"]])
         if not same:
             hits.append((c["path"], "the two outputs do not describe the same model"))
+        if a["arrays"] != b["arrays"]:
+            bad = [x[0] for x, y in zip(a["arrays"], b["arrays"]) if x != y] or ["<different array sets>"]
+            hits.append((c["path"], "the parameter arrays of the two outputs differ (members or order): " + bad[0]))
+        for lang in ("cpp", "py"):
+            orig = {d[0]: d[1] for d in iv[lang]["pars"]}
+            for an, els in iv[lang]["arrays"]:
+                if an == "IS_poles":
+                    continue
+                idx = [re.search(r"(\d+)$", orig.get(e, e)) for e in els]
+                if any(m is None for m in idx) or [int(m.group(1)) for m in idx] != list(range(len(els))):
+                    hits.append((c["path"], "a spline / f_scatt array is not in index order in the " + lang + " output: " + an))
+                    break
         for lang in ("cpp", "py"):
             for co in iv[lang]["coefs"]:
                 if len(co) == 2 and co[0] == co[1]:
